@@ -183,10 +183,12 @@ class ReadMerger(ReadMergerBase):
                     superreads[r][position][allele] += quality
 
         merged_reads = ReadSet()
-        readn = 0
         for id in range(len(reads)):
-            read = Read(f"read{readn}")
-            readn += 1
+            # Keep the identity of the original (representative) read: within a
+            # pedigree, the read sets of all samples are combined afterwards
+            original = readset[id]
+            mapq = original.mapqs[0] if original.mapqs else 0
+            read = Read(original.name, mapq, original.source_id, original.sample_id)
             if id in representative:
                 if id == representative[id]:
                     for position in sorted(superreads[id]):
